@@ -82,6 +82,11 @@ func c03ReplaceInterrupted(x *runCtx) {
 		_, errOld := db.Voucher(ctx, old.Header.Val.GUID)
 		_, errNew := db.Voucher(ctx, repl.Header.Val.GUID)
 		state := fmt.Sprintf("ReplaceVoucher=%s old-present=%v replacement-present=%v interrupted=%v", res, errOld == nil, errNew == nil, hook.tripped)
+		if hook.tripped && res != "panic" {
+			// the store model's interrupted replacement (Fdo.Store.replaceVoucherCut) predicts the same three observations
+			x.c.add(pending{check: "C03.sqlite-replace-vs-model", line: "store.cut " + strings.ToLower(strings.Fields(point)[0]),
+				impl: fmt.Sprintf("ReplaceVoucher=%s old-present=%v replacement-present=%v", res, errOld == nil, errNew == nil), input: input})
+		}
 		switch {
 		case res == "panic":
 			x.r.Violate(rep.Violation{Kind: "panic", Check: "C03.sqlite-replace", Signature: "C03.sqlite-replace:panic", Input: input, Impl: state, PropertyFails: true})
@@ -93,4 +98,5 @@ func c03ReplaceInterrupted(x *runCtx) {
 		}
 		_ = db.Close()
 	}
+	x.c.flush()
 }
